@@ -15,4 +15,4 @@ func rulePanicSites(r *rep.Report, p *load.Program, rl *roles.Roles) {
 	}
 }
 func ruleArithStructure(r *rep.Report, p *load.Program) { ruleUnrolledChains(r, p) }
-func ruleExpandLengths(r *rep.Report, p *load.Program)                                       {} // part of ruleBitOrigin(modm)
+func ruleExpandLengths(r *rep.Report, p *load.Program)  {} // part of ruleBitOrigin(modm)
